@@ -1,5 +1,5 @@
 from shexer.io.graph.yielder.base_triples_yielder import BaseTriplesYielder
-from shexer.utils.uri import remove_corners, unprefixize_uri_mandatory
+from shexer.utils.uri import remove_corners, unprefixize_uri_mandatory, index_of_closing_quotes
 from shexer.utils.triple_yielders import tune_subj, tune_prop, tune_token
 import re
 
@@ -92,18 +92,20 @@ class BigTtlTriplesYielder(BaseTriplesYielder):
         """
         if '"' not in str_line:  # Comment mark and no literals, trivial case
             return str_line[:str_line.find(" #")]
-        # We need to find the begining and end of the literal to avoid erasing
-        # comments within literals (actual content)
-        quotes_indexes = []
-        count_down_quotes = 2
-        for a_match in _QUOTES_FOR_LITERALS.finditer(str_line):
-            quotes_indexes.append(a_match.start(0))
-            count_down_quotes -= 1
-            if count_down_quotes == 0:
-                break
-        for a_match in _INIT_INLINE_COMMENT.finditer(str_line):
-            if a_match.start(0) < quotes_indexes[0] or a_match.start(0) > quotes_indexes[1]:
-                return str_line[:a_match.start(0)]
+        # A comment starts at the first " #" which is not part of the content of a string literal
+        within_literal = False
+        i = 0
+        while i < len(str_line):
+            if within_literal:
+                if str_line[i] == "\\":
+                    i += 1  # escaped char, skip it
+                elif str_line[i] == '"':
+                    within_literal = False
+            elif str_line[i] == '"':
+                within_literal = True
+            elif str_line.startswith(" #", i):
+                return str_line[:i]
+            i += 1
         return str_line  # If this point is reached, it means that the potential comments
                          # are actual content of a string literal
 
@@ -174,7 +176,7 @@ class BigTtlTriplesYielder(BaseTriplesYielder):
 
     def _find_next_blank(self, target_str, start_index):
         pos = target_str.find(" ", start_index)
-        return len(target_str)-1 if pos == -1 else pos
+        return len(target_str) if pos == -1 else pos
 
 
     def _find_next_unescaped_quotes(self, target_str, start_index):
@@ -209,9 +211,9 @@ class BigTtlTriplesYielder(BaseTriplesYielder):
     def _find_next_quoted_literal_ending(self, target_str, start_index):
         next_quotes = self._find_next_unescaped_quotes(target_str=target_str,
                                                        start_index=start_index+1)
-        if next_quotes +1 > len(target_str) or target_str[next_quotes + 1] == " ":
+        if next_quotes + 1 >= len(target_str) or target_str[next_quotes + 1] == " ":
             return next_quotes
-        elif target_str[next_quotes + 1] == "^":
+        elif target_str[next_quotes + 1] in ("^", "@"):  # typed or language-tagged literal
             return self._find_next_blank(target_str, next_quotes) - 1
         else:
             raise ValueError("Malformed literal? It seems like there is a problem of unmatching quotes: " + target_str)
@@ -352,7 +354,7 @@ class BigTtlTriplesYielder(BaseTriplesYielder):
         elif raw_elem in _RDF_TYPE_CONTRACTED:
             return _RDF_TYPE_URI
         elif raw_elem.startswith('"'):  # it's a literal, will be better parsed later
-            return raw_elem
+            return self._unprefixize_datatype_if_needed(raw_elem)
         elif ":" in raw_elem:
             if raw_elem.startswith("_:"):
                 return raw_elem
@@ -361,6 +363,19 @@ class BigTtlTriplesYielder(BaseTriplesYielder):
         elif raw_elem in _BOOLEANS or self._is_num_literal(raw_elem):
             return raw_elem
             # else?? shouldnt happen, let it break with a nullpoitner
+
+    def _unprefixize_datatype_if_needed(self, raw_literal):
+        """
+        "lex"^^prefix:local --> "lex"^^<namespace + local> when the prefix was declared in the document
+        """
+        index_suffix = index_of_closing_quotes(raw_literal) + 1
+        suffix = raw_literal[index_suffix:]
+        if suffix.startswith("^^") and not suffix.startswith("^^<"):
+            str_type = suffix[2:]
+            if ":" in str_type and str_type[:str_type.find(":")] in self._prefixes:
+                return raw_literal[:index_suffix] + "^^" + unprefixize_uri_mandatory(target_uri=str_type,
+                                                                                    prefix_namespaces_dict=self._prefixes)
+        return raw_literal
 
     def _parse_cornered_element(self, cornered_element):
         if self._base is None:
